@@ -194,26 +194,31 @@ auto fns() -> std::vector<Fn1>&
 {
     static std::vector<Fn1> t = {
         {C16_E(sqrt), cat(pos(F32DEN, F32MAX), {{0.25, 4.0, 1}}), cat(pos(F64DEN, F64MAX), {{0.25, 4.0, 1}}), {1, 4, 2, 0.25, 16}, {-1, -F32DEN, 1, 4}, 0, 100, {{"C16.sqrt.gcem", cls_sqrt}}},
-        {C16_E(exp), sym(1e-30, 80), sym(1e-300, 700), {0, 1, -1, 0.5, 2, -2}, {}, -20, 20, {}},
+        {C16_E(exp), {{F32DEN, 110, 0}, {-110, -F32DEN, 0}, {-110, 110, 1}, {86, 90, 1}, {-105, -85, 1}}, {{F64DEN, 800, 0}, {-800, -F64DEN, 0}, {-800, 800, 1}, {705, 712, 1}, {-750, -700, 1}},
+            {0, 1, -1, 0.5, 2, -2, 88.72283905206835, -87.33654475055311, -103.27892990343185, -103.97207708399179, 709.782712893384, -708.3964185322641, -745.1332191019411}, {}, -20, 20, {}},
         {C16_E(log), pos(F32DEN, F32MAX), pos(F64DEN, F64MAX), {1, 0.5, 1.5, 2, 10}, {1, -1, -F32DEN}, 1, 100, {}},
         {C16_E(log2), pos(F32DEN, F32MAX), pos(F64DEN, F64MAX), {1, 0.5, 2, 4, 1024}, {1, -1, -F32DEN}, 1, 100, {}},
         {C16_E(log10), pos(F32DEN, F32MAX), pos(F64DEN, F64MAX), {1, 0.1, 10, 100, 1000}, {1, -1, -F32DEN}, 1, 100, {}},
         {C16_E(log1p), cat(cat(sym(F32DEN, 0.99), pos(0.99, F32MAX)), {{-1.0, -0.99, 1}}), cat(cat(sym(F64DEN, 0.99), pos(0.99, F64MAX)), {{-1.0, -0.99, 1}}), {0, 1e-4, -1e-4, 1, -0.5, -1}, {-1, -2, -1.5}, 0, 100, {{"C16.log1p.gcem", cls_log1p}}},
-        {C16_E(sin), sym(1e-30, 100), sym(1e-300, 100), {0, PI / 2, PI, 2 * PI, -PI, 100}, {}, -100, 100, {}},
-        {C16_E(cos), sym(1e-30, 100), sym(1e-300, 100), {0, PI / 2, PI, 2 * PI, -PI, 100}, {}, -100, 100, {}},
-        {C16_E(tan), sym(1e-30, 100), sym(1e-300, 100), {0, PI / 4, PI / 2, PI, -PI / 2}, {}, -100, 100, {}},
-        {C16_E(asin), sym(1e-30, 1), sym(1e-300, 1), {0, 0.5, 1, -1}, {1, -1, 1.5, -1.5, 2}, -1, 1, {}},
-        {C16_E(acos), sym(1e-30, 1), sym(1e-300, 1), {0, 0.5, 1, -1}, {1, -1, 1.5, -1.5, 2}, -1, 1, {}},
-        {C16_E(atan), sym(1e-30, F32MAX), sym(1e-300, F64MAX), {0, 1, -1}, {}, -100, 100, {}},
-        {C16_E(sinh), sym(1e-30, 80), sym(1e-300, 700), {0, 1, -1}, {}, -20, 20, {{"C16.sinh.gcem", cls_sinh}}},
+        {C16_E(sin), cat(sym(F32DEN, F32MAX), {{-100.0, 100.0, 1}}), cat(sym(F64DEN, F64MAX), {{-100.0, 100.0, 1}}), {0, PI / 2, PI, 2 * PI, -PI, 100, 3294198.0, 1e7, 1e22}, {}, -100, 100, {}},
+        {C16_E(cos), cat(sym(F32DEN, F32MAX), {{-100.0, 100.0, 1}}), cat(sym(F64DEN, F64MAX), {{-100.0, 100.0, 1}}), {0, PI / 2, PI, 2 * PI, -PI, 100, 3294198.0, 1e7, 1e22}, {}, -100, 100, {}},
+        {C16_E(tan), cat(sym(F32DEN, F32MAX), {{-100.0, 100.0, 1}}), cat(sym(F64DEN, F64MAX), {{-100.0, 100.0, 1}}), {0, PI / 4, PI / 2, PI, -PI / 2, 3294198.0, 1e7, 1e22}, {}, -100, 100, {}},
+        {C16_E(asin), sym(F32DEN, 1), sym(F64DEN, 1), {0, 0.5, 1, -1}, {1, -1, 1.5, -1.5, 2}, -1, 1, {}},
+        {C16_E(acos), sym(F32DEN, 1), sym(F64DEN, 1), {0, 0.5, 1, -1}, {1, -1, 1.5, -1.5, 2}, -1, 1, {}},
+        {C16_E(atan), sym(F32DEN, F32MAX), sym(F64DEN, F64MAX), {0, 1, -1}, {}, -100, 100, {}},
+        {C16_E(sinh), cat(sym(F32DEN, 92), {{88.0, 90.5, 1}, {-90.5, -88.0, 1}}), cat(sym(F64DEN, 715), {{708.0, 712.0, 1}, {-712.0, -708.0, 1}}), {0, 1, -1, 89.41598629223294, 710.4758600739439}, {}, -20, 20, {{"C16.sinh.gcem", cls_sinh}}},
+        // cosh is the one function of this list that still runs gcem at run time on this tree: (exp(x) + exp(-x)) / 2 overflows
+        // from 88.72 / 709.78 on, so its domain stays |x| <= 80 / 700
         {C16_E(cosh), sym(1e-30, 80), sym(1e-300, 700), {0, 1, -1}, {}, -20, 20, {}},
-        {C16_E(tanh), sym(1e-30, F32MAX), sym(1e-300, F64MAX), {0, 1, -1, 9, 19}, {}, -20, 20, {}},
-        {C16_E(asinh), sym(1e-30, F32MAX), sym(1e-300, F64MAX), {0, 1, -1}, {}, -100, 100, {}},
+        {C16_E(tanh), sym(F32DEN, F32MAX), sym(F64DEN, F64MAX), {0, 1, -1, 9, 19}, {}, -20, 20, {}},
+        {C16_E(asinh), sym(F32DEN, F32MAX), sym(F64DEN, F64MAX), {0, 1, -1}, {}, -100, 100, {}},
         {C16_E(acosh), pos(1, F32MAX), pos(1, F64MAX), {1, 2}, {1, 0.5, -1, -2}, 1, 100, {}},
-        {C16_E(atanh), sym(1e-30, 0.9999999), sym(1e-300, 0.9999999999999999), {0, 0.5, -0.5}, {1, -1, 1.5, -1.5}, 0, 0, {{"C16.atanh.gcem", cls_atanh}}},
-        {C16_E(erf), sym(1e-30, 10), sym(1e-300, 10), {0, 1, 2.1, -2.1, 0.5}, {}, -6, 6, {{"C16.erf.gcem", cls_erf}}},
-        {C16_E(tgamma), cat(pos(1e-30, 34), {{-20.0, -1e-3, 1}}), cat(pos(1e-300, 170), {{-20.0, -1e-3, 1}}), {1, 2, 3, 0.5, 10}, {-1, -2, -3, -10}, 1, 20, {{"C16.tgamma.gcem", cls_tgamma}}},
-        {C16_E(lgamma), cat(pos(1e-30, 1e30), {{-20.0, -1e-3, 1}}), cat(pos(1e-300, 1e300), {{-20.0, -1e-3, 1}}), {1, 2, 3, 0.5, 10}, {1, 2, -1, -2, -3, -10}, 1, 100, {{"C16.lgamma.gcem", cls_lgamma}}},
+        {C16_E(atanh), sym(F32DEN, 0.9999999), sym(F64DEN, 0.9999999999999999), {0, 0.5, -0.5}, {1, -1, 1.5, -1.5}, 0, 0, {{"C16.atanh.gcem", cls_atanh}}},
+        {C16_E(erf), cat(sym(F32DEN, F32MAX), {{-6.0, 6.0, 1}}), cat(sym(F64DEN, F64MAX), {{-6.0, 6.0, 1}}), {0, 1, 2.1, -2.1, 0.5, 4, 6}, {}, -6, 6, {{"C16.erf.gcem", cls_erf}}},
+        {C16_E(tgamma), cat(pos(F32DEN, 36), {{-45.0, -1e-3, 1}, {-1e-3, -F32DEN, 0}}), cat(pos(F64DEN, 172), {{-185.0, -1e-3, 1}, {-1e-3, -F64DEN, 0}}), {1, 2, 3, 0.5, 10, 35.04009, 171.62437695630272}, {-1, -2, -3, -10}, 1, 20,
+            {{"C16.tgamma.gcem", cls_tgamma}}},
+        {C16_E(lgamma), cat(pos(F32DEN, F32MAX), {{-50.0, -1e-3, 1}, {-F32MAX, -F32DEN, 0}}), cat(pos(F64DEN, F64MAX), {{-50.0, -1e-3, 1}, {-F64MAX, -F64DEN, 0}}), {1, 2, 3, 0.5, 10}, {1, 2, -1, -2, -3, -10}, 1, 100,
+            {{"C16.lgamma.gcem", cls_lgamma}}},
     };
     return t;
 }
@@ -378,6 +383,33 @@ void run_fn1(vf::Ctx& c, Fn1 const& f, std::uint64_t nsamples, vf::Rng& rng)
             vf::sample(f.name, [&] { return std::string(f.name) + " " + BitsOf<T>::name + " " + show_arg(x); });
         }
     }
+    // (c) sin / cos / tan: neighbourhoods of k*pi/2 for large k (libm reduces the argument exactly; so must the etl path)
+    if (f.name[0] == 's' || f.name[0] == 'c' || f.name[0] == 't') {
+        bool const trig = std::strcmp(f.name, "sin") == 0 || std::strcmp(f.name, "cos") == 0 || std::strcmp(f.name, "tan") == 0;
+        if (trig) {
+            int const kbits = sizeof(T) == 4 ? 40 : 70;
+            std::uint64_t big = 0;
+            for (std::uint64_t i = 0; i < n / 4 + 1; ++i) {
+                int const bl        = 1 + static_cast<int>(rng.below(static_cast<unsigned>(kbits)));
+                long double const k = ::ldexpl(1.0L + static_cast<long double>(rng.next() >> 11) / 9007199254740992.0L, bl - 1);
+                T x                 = static_cast<T>(::floorl(k) * 1.57079632679489661923132169163975144L);
+                if (inf_b(x)) { continue; }
+                x = from_bits<T>(static_cast<U>(bits(x) + static_cast<U>(rng.range(-2, 2))));
+                if (rng.below(2) != 0) { x = -x; }
+                if (inf_b(x) || nan_b(x) || zero_b(x)) { continue; }
+                case1<T>(f, x, false, 0, true);
+                if constexpr (sizeof(T) == 4) {
+                    if ((i & 7U) == 0) { case1<T>(f, x, false, 1, true); }
+                }
+                ++total;
+                ++nt;
+                big += mag(x) > T(3.3e6);
+            }
+            auto& cb = vf::stats().classes[std::string("approx.") + BitsOf<T>::name + ".trig argument next to k*pi/2 beyond 2^20*pi"];
+            cb.first += big;
+            cb.second += n / 4 + 1;
+        }
+    }
     vf::nontrivial_count(nt);
     auto& cl = vf::stats().classes[std::string("approx.") + BitsOf<T>::name + ".nontrivial argument"];
     cl.first += nt;
@@ -443,6 +475,10 @@ auto excluded2(int which, T x, T y) -> bool
         vf::excluded_known("C16.atan2.gcem");
         return true;
     }
+    if (which == 2 && vf::ctx().excluded("C16.hypot.naive") && cls_hypot_naive<T>(x, y)) {
+        vf::excluded_known("C16.hypot.naive");
+        return true;
+    }
     if (which == 2 && vf::ctx().excluded("C16.sqrt.gcem") && cls_hypot<T>(x, y, T(0))) {
         vf::excluded_known("C16.sqrt.gcem");
         return true;
@@ -489,45 +525,102 @@ void run_fn2(vf::Ctx& c, std::uint64_t nsamples, vf::Rng& rng)
         }
     }
     std::uint64_t const n = nsamples / static_cast<unsigned>(c.nshards) + 1;
-    int const E = sizeof(T) == 4 ? 60 : 500; // hypot / atan2: exponents in [-E, E] (no intermediate overflow of x*x + y*y is NOT assumed: see domain note)
+    // hypot is sqrt(x*x + y*y) on this tree: the ulp bound is claimed where the squares neither overflow nor underflow
+    // (binary exponents within +-E); beyond that it is the known-finding class C16.hypot.naive (sampled unless excluded)
+    int const E = sizeof(T) == 4 ? 62 : 510;
+    using U     = typename BitsOf<T>::type;
+    auto any_finite = [&]() -> T { // uniform over the bit patterns of finite non-zero values: every exponent incl. subnormals
+        for (;;) {
+            T const v = from_bits<T>(static_cast<U>(rng.next() >> (64 - sizeof(T) * 8)));
+            if (!nan_b(v) && !inf_b(v) && !zero_b(v)) { return v; }
+        }
+    };
+    auto mant01 = [&]() { return 1.0 + static_cast<double>(rng.next() >> 12) / 4503599627370496.0; };
+    std::uint64_t pow_edge = 0, pow_near1 = 0, wide = 0;
     for (std::uint64_t i = 0; i < n; ++i) {
-        // pow: base in [1/64, 64] (negative with integer exponents), exponent in [-20, 20]
+        // pow
         {
             T x = sample_seg<T>(Seg{1.0 / 64, 64.0, static_cast<int>(i & 1)}, rng);
             T y = sample_seg<T>(Seg{-20.0, 20.0, 1}, rng);
-            auto const shape = rng.below(8);
+            auto const shape = rng.below(12);
             if (shape == 0) { y = static_cast<T>(rng.range(-20, 20)); }
             if (shape == 1) {
                 y = static_cast<T>(rng.range(-20, 20));
                 x = -x;
             }
             if (shape == 2) { y = static_cast<T>(rng.range(-40, 40)) / 2; }
+            if (shape == 3 || shape == 4) { // any positive base, exponent chosen so that the result is 2^t with t across the over/underflow thresholds
+                x               = mag(any_finite());
+                double const l2 = ::log2(static_cast<double>(x));
+                double const t  = sizeof(T) == 4 ? -160.0 + 300.0 * (mant01() - 1.0) : -1100.0 + 2140.0 * (mant01() - 1.0);
+                if (l2 != 0) { y = static_cast<T>(t / l2); }
+                ++pow_edge;
+            }
+            if (shape == 5 || shape == 6) { // base next to 1, huge exponent
+                int const kmax = sizeof(T) == 4 ? 23 : 52;
+                int const k    = 1 + static_cast<int>(rng.below(static_cast<unsigned>(kmax)));
+                x              = static_cast<T>(1.0 + (rng.below(2) != 0 ? 1.0 : -1.0) * ::ldexp(mant01(), -k - 1));
+                y              = static_cast<T>(::ldexp(mant01(), static_cast<int>(rng.range(0, k + 12))));
+                if (rng.below(2) != 0) { y = -y; }
+                ++pow_near1;
+            }
+            if (shape == 7) { // any base (negative too), any exponent magnitude (huge even / odd / non-integers, tiny)
+                x = any_finite();
+                y = any_finite();
+                if (rng.below(2) != 0) { y = static_cast<T>(::nearbyint(static_cast<double>(y))); }
+                if (zero_b(y)) { y = T(3); }
+            }
             case2<T>(0, 0, x, y, false, true);
             if (shape <= 1) { case2<T>(0, 2, x, y, false, true); } // pow(x, int)
             if constexpr (sizeof(T) == 4) {
                 if ((i & 7U) == 0) { case2<T>(0, 1, x, y, false, true); }
             }
             ++total;
-            nt += shape <= 2 || is_nt(x);
+            nt += shape <= 7 || is_nt(x);
         }
-        // atan2 / hypot: both finite, non-zero, moderate exponents, all sign combinations, occasionally nearly equal
-        for (int w = 1; w <= 2; ++w) {
-            T x = static_cast<T>(::ldexp(1.0 + static_cast<double>(rng.next() >> 12) / 4503599627370496.0, static_cast<int>(rng.range(-E, E))));
-            T y = static_cast<T>(::ldexp(1.0 + static_cast<double>(rng.next() >> 12) / 4503599627370496.0, static_cast<int>(rng.range(-E, E))));
+        // atan2: both finite and non-zero, all sign combinations; every exponent incl. subnormals, occasionally nearly equal
+        {
+            T x = any_finite(), y = any_finite();
             auto const shape = rng.below(4);
-            if (shape == 0) { y = static_cast<T>(static_cast<double>(x) * (0.5 + static_cast<double>(rng.next() >> 12) / 4503599627370496.0 * 1.5)); }
-            if (rng.below(2) != 0) { x = -x; }
-            if (rng.below(2) != 0) { y = -y; }
-            case2<T>(w, 0, x, y, false, true);
+            if (shape == 0) { y = static_cast<T>(static_cast<double>(x) * (0.5 + (mant01() - 1.0) * 1.5)); }
+            if (shape == 1) {
+                x = static_cast<T>(::ldexp(mant01(), static_cast<int>(rng.range(-30, 30))));
+                y = static_cast<T>(::ldexp(mant01(), static_cast<int>(rng.range(-30, 30))));
+                if (rng.below(2) != 0) { x = -x; }
+                if (rng.below(2) != 0) { y = -y; }
+            }
+            if (zero_b(y) || inf_b(y)) { y = x; }
+            case2<T>(1, 0, x, y, false, true);
             if constexpr (sizeof(T) == 4) {
-                if ((i & 7U) == 0) { case2<T>(w, 1, x, y, false, true); }
+                if ((i & 7U) == 0) { case2<T>(1, 1, x, y, false, true); }
             }
             ++total;
             nt += shape == 0 || sign_b(x) || sign_b(y);
         }
+        // hypot
+        {
+            T x = static_cast<T>(::ldexp(mant01(), static_cast<int>(rng.range(-E, E))));
+            T y = static_cast<T>(::ldexp(mant01(), static_cast<int>(rng.range(-E, E))));
+            auto const shape = rng.below(4);
+            if (shape == 0) { y = static_cast<T>(static_cast<double>(x) * (0.5 + (mant01() - 1.0) * 1.5)); }
+            if (shape == 1) { // every exponent, subnormal to near overflow (class C16.hypot.naive when a square leaves the range)
+                x = any_finite();
+                y = rng.below(2) != 0 ? any_finite() : static_cast<T>(static_cast<double>(x) * (0.5 + (mant01() - 1.0) * 1.5));
+                if (zero_b(y) || inf_b(y)) { y = x; }
+                ++wide;
+            }
+            if (rng.below(2) != 0) { x = -x; }
+            if (rng.below(2) != 0) { y = -y; }
+            case2<T>(2, 0, x, y, false, true);
+            if constexpr (sizeof(T) == 4) {
+                if ((i & 7U) == 0) { case2<T>(2, 1, x, y, false, true); }
+            }
+            ++total;
+            nt += shape <= 1 || sign_b(x) || sign_b(y);
+        }
         // hypot(x, y, z): reference = sqrtl of the exact-enough long double sum, rounded once
         {
-            int const E3 = sizeof(T) == 4 ? 40 : 300;
+            int const E3 = sizeof(T) == 4 ? 60 : 505;
             T v[3];
             for (auto& q : v) {
                 q = static_cast<T>(::ldexp(1.0 + static_cast<double>(rng.next() >> 12) / 4503599627370496.0, static_cast<int>(rng.range(-E3, E3))));
@@ -548,6 +641,16 @@ void run_fn2(vf::Ctx& c, std::uint64_t nsamples, vf::Rng& rng)
             if (!d.empty() && !measure_swallow("hypot3", d)) { vf::mismatch("hypot", k, d); }
             ++total;
         }
+    }
+    {
+        auto lab = [&](char const* nm, std::uint64_t h) {
+            auto& c2 = vf::stats().classes[std::string("approx2.") + BitsOf<T>::name + nm];
+            c2.first += h;
+            c2.second += n;
+        };
+        lab(".pow result across the overflow / underflow thresholds", pow_edge);
+        lab(".pow base next to 1 with a huge exponent", pow_near1);
+        lab(".hypot over every exponent (subnormal .. near overflow)", wide);
     }
     vf::nontrivial_count(nt);
     auto& cl = vf::stats().classes[std::string("approx2.") + BitsOf<T>::name + ".nontrivial argument pair"];
